@@ -311,14 +311,18 @@ Definition check (c : case) : N :=
     let oe := omap (map Z.of_N) o_enc in
     code (zs_eqb (fst m) oe && zs_eqb (match oe with Ok b => snd m b | _ => Err end) o_dec)
          (negb (is_panic o_enc) && negb (is_panic o_dec)
-          && (if own || freq_kind_premise lo hi k ins then zs_eqb o_dec (Ok ins) else true))
+          && (if own || freq_kind_premise lo hi k ins then zs_eqb o_dec (Ok ins) else true)
+          (* lossless or refused, for EVERY input: what the encoder accepts decodes to the same values *)
+          && match o_enc with Ok _ => zs_eqb o_dec (Ok ins) | _ => true end)
   | CCFList cf lo hi o_enc o_dec =>
     let oe := omap (map Z.of_N) o_enc in
     code (zs_eqb (cflist_marshal cf) oe
           && outcome_eqb cflist_eqb (match oe with Ok b => cflist_unmarshal b | _ => Err end) o_dec)
          (negb (is_panic o_enc) && negb (is_panic o_dec)
           && match cf with
-             | CFChannels fs => if forallb (fun f => (f =? 0) || user_freq_ok lo hi f) fs then outcome_eqb cflist_eqb o_dec (Ok cf) else true
+             | CFChannels fs =>
+               (if forallb (fun f => (f =? 0) || user_freq_ok lo hi f) fs then outcome_eqb cflist_eqb o_dec (Ok cf) else true)
+               && match o_enc with Ok _ => outcome_eqb cflist_eqb o_dec (Ok cf) | _ => true end
              | CFMasks ms => outcome_eqb cflist_eqb o_dec (Ok cf)
              end)
   end.
